@@ -35,6 +35,13 @@ func runC03(c *an.Ctx) {
 	// critical section that stores the result)
 	c.As(map[string]string{"R11b": "R03j", "R11d": "R03i"}, func() { r11d(c, r11b(c)) })
 	r03k(c)
+	// round 7
+	awaitedToTheEnd(c, "R03l", "stateChangedCh")
+	r03m(c)
+	c.As(map[string]string{"R15i": "R03n"}, func() { r15i(c) })
+	c.As(map[string]string{"R10e": "R03o"}, func() { r10e(c) })
+	c.As(map[string]string{"R11h": "R03p"}, func() { r11h(c) })
+	c.As(map[string]string{"R11i": "R03q"}, func() { r11i(c) })
 }
 
 // constsLeadingTo: TaskState/other enum constants k such that an `x == k` test's true edge leads into (dominates) target's block.
